@@ -130,8 +130,12 @@ def _setup_case(report_kind):
             cx.assume(cx.t(Rp) >= 1)
         else:
             Rp = report_kind
-        topt = types.SimpleNamespace(report_timestep=Rp, hydraulic_timestep=H)
-        wn = types.SimpleNamespace(options=types.SimpleNamespace(time=topt))
+        # the other time options and the model's clock are arbitrary (a fresh model or one paused anywhere): the effective steps depend on neither
+        st, pst = cx.int("sim_time"), cx.int("prev_sim_time")
+        cx.assume(cx.t(st) >= 0, cx.t(pst) >= -1)
+        topt = types.SimpleNamespace(report_timestep=Rp, hydraulic_timestep=H, duration=cx.int("duration"), rule_timestep=cx.int("rule_timestep"),
+                                     pattern_timestep=cx.int("pattern_timestep"), start_clocktime=cx.int("start_clocktime"), pattern_start=cx.int("pattern_start"))
+        wn = types.SimpleNamespace(options=types.SimpleNamespace(time=topt, hydraulic=types.SimpleNamespace(demand_model="DD")), sim_time=st, _prev_sim_time=pst)
         sim = cx.obj(WNTRSimulator, _wn=wn, _model=None)
         cx.allow_raise(ValueError, isinstance(Rp, str) and Rp.upper() != "ALL")
         cx.target(WNTRSimulator._setup_sim_options, sim, NewtonSolver, None, None, None, False)
@@ -157,7 +161,7 @@ def _setup_case(report_kind):
     return Case("report=%s" % report_kind, build, crosscheck=False)
 
 
-CONTRACTS.append(Contract("wntr.sim.core:WNTRSimulator._setup_sim_options", ["C16", "C11", "C04"], [_setup_case(k) for k in ("int", "ALL", "all", "hourly")],
+CONTRACTS.append(Contract("wntr.sim.core:WNTRSimulator._setup_sim_options", ["C16", "C11", "C04", "C10"], [_setup_case(k) for k in ("int", "ALL", "all", "hourly")],
                           note="NewtonSolver without options; the scipy fsolve branches are not exercised"))
 
 
